@@ -21,3 +21,6 @@ def run(project, rep):
     rep.rule("J-R4", "the dates given on the command line denote the instants requested: convert_datetime uses the DateTime converter, whose offset plumbing is decided by Z-R4 / Z-R5")
     rep.run(Z.z_r4_conversion, project, rep)
     rep.run(Z.z_r5_offset_sign, project, rep)
+    from .. import rules_types as T
+    rep.rule("J-R5", "the account id written is the one configured: string writers return exactly what passed the length check (T-R3)")
+    rep.run(T.t_r3, project, rep)
